@@ -44,6 +44,8 @@ def run(prog, rep, tier, repo):
     d6_loops(prog, rep)
     d8_regimes(prog, rep)
     d7_integral(prog, rep)
+    from ..chunks import check_chunk_remainder
+    check_chunk_remainder(prog, rep, 'chunk-remainder', lambda k: 'distributions::' in k)
     rep.trusted.append('alea::f64() lies in [0, 1)')
     return {}
 
